@@ -29,7 +29,8 @@ def one_trace(rng: random.Random, tid: str, prop: str, kind=None, depth=4) -> di
     nums = []
     for _ in range(rng.randint(1, 2)):
         shape = gen.broadcast_partner(rng, base_shape)
-        nums.append(rec.new(gen.rand_numeric(rng, shape, kind if rng.random() < 0.7 else "int"), note="numeric"))
+        nkind = kind if rng.random() < 0.7 else rng.choice(["int", "int", "bool"])
+        nums.append(rec.new(gen.rand_numeric(rng, shape, nkind), note="numeric"))
     level = {r: 0 for r in polys + nums}
     is_poly = set(polys)
     steps = rng.randint(3, 9)
